@@ -25,6 +25,8 @@ EXPLANATION = (
     "CAP-1 (Taylor series of the two-body propagator): the scan emits vhs^(k+1) w, the sum runs over "
     "exactly as many indices as the scan has outputs, output n is divided by (n+1)!, the zeroth-order "
     "term is the walker itself and the same one-body half step is applied on both sides. "
+    "KEYS-1: the phaseless constant 'h0_prop' built by the propagation builders does not contain the "
+    "free-projection energy zero 'ene0'. "
 )
 NOT_DECIDED = (
     "the whole first sentence of the property: the Gaussian field average, the mean-field subtraction "
